@@ -38,6 +38,80 @@ class Action:
     prods: List[Production]
 
 
+def inline_statement_helpers(fn: ast.FunctionDef, helpers: Dict[str, ast.FunctionDef], depth: int = 2) -> ast.FunctionDef:
+    """A copy of `fn` in which statement-level calls `self.helper(args)` of
+    procedure-like helpers (no value returned) are replaced by the helper's
+    body with the parameters substituted.  Parser actions are analysed after
+    this step, so moving the tail of an action into a helper method does not
+    change what the rules see."""
+    import copy
+
+    from .core import link_parents
+
+    def procedure_like(h: ast.FunctionDef) -> bool:
+        for n in ast.walk(h):
+            if isinstance(n, ast.Return) and n.value is not None and not (isinstance(n.value, ast.Constant) and n.value.value is None):
+                return False
+            if isinstance(n, (ast.Yield, ast.YieldFrom)):
+                return False
+        # a bare `return` anywhere but as the very last statement changes control flow when spliced
+        for n in ast.walk(h):
+            if isinstance(n, ast.Return) and n is not h.body[-1]:
+                return False
+        return True
+
+    def subst(body: List[ast.stmt], mapping: Dict[str, ast.expr]) -> List[ast.stmt]:
+        class T(ast.NodeTransformer):
+            def visit_Name(self, n: ast.Name) -> Any:
+                if n.id in mapping and isinstance(n.ctx, ast.Load):
+                    return copy.deepcopy(mapping[n.id])
+                return n
+
+        return [T().visit(copy.deepcopy(st)) for st in body]
+
+    def expand(stmts: List[ast.stmt], d: int) -> List[ast.stmt]:
+        out: List[ast.stmt] = []
+        for st in stmts:
+            c = st.value if isinstance(st, ast.Expr) and isinstance(st.value, ast.Call) else None
+            if c is not None and d > 0 and isinstance(c.func, ast.Attribute) and isinstance(c.func.value, ast.Name) and c.func.value.id == "self" and c.func.attr in helpers and not c.keywords:
+                h = helpers[c.func.attr]
+                params = [a.arg for a in h.args.args[1:]]
+                simple = all(isinstance(a, (ast.Name, ast.Constant, ast.Subscript, ast.Attribute)) for a in c.args)
+                assigned = {x.id for n in ast.walk(h) for x in ast.walk(n) if isinstance(x, ast.Name) and isinstance(x.ctx, ast.Store)}
+                if procedure_like(h) and len(params) == len(c.args) and simple and not (assigned & set(params)) and h.name != fn.name:
+                    body = [b for b in h.body if not (isinstance(b, ast.Expr) and isinstance(b.value, ast.Constant))]
+                    if body and isinstance(body[-1], ast.Return):
+                        body = body[:-1]
+                    new = subst(body, dict(zip(params, c.args)))
+                    for b in new:
+                        for n in ast.walk(b):
+                            if hasattr(n, "lineno"):
+                                n.lineno = st.lineno  # type: ignore[attr-defined]
+                                n.end_lineno = st.lineno  # type: ignore[attr-defined]
+                    out.extend(expand(new, d - 1))
+                    continue
+            for field in ("body", "orelse", "finalbody"):
+                sub = getattr(st, field, None)
+                if isinstance(sub, list) and sub and isinstance(sub[0], ast.stmt):
+                    setattr(st, field, expand(sub, d))
+            if isinstance(st, ast.Try):
+                for h_ in st.handlers:
+                    h_.body = expand(h_.body, d)
+            out.append(st)
+        return out
+
+    calls_helper = any(isinstance(n, ast.Call) and isinstance(n.func, ast.Attribute) and isinstance(n.func.value, ast.Name) and n.func.value.id == "self" and n.func.attr in helpers for n in ast.walk(fn))
+    if not calls_helper:
+        return fn
+    new_fn = copy.deepcopy(fn)
+    new_fn.body = expand(new_fn.body, depth)
+    link_parents(new_fn)
+    par = getattr(fn, "_parent", None)
+    if par is not None:
+        new_fn._parent = par  # type: ignore[attr-defined]
+    return new_fn
+
+
 class Grammar:
     def __init__(self, repo: Repo) -> None:
         self.repo = repo
@@ -89,7 +163,13 @@ class Grammar:
                 self.parser_cls = st
         if self.parser_cls is None:
             raise Inconclusive("parser.py: class Parser vanished")
-        for st in self.parser_cls.body:
+        # procedure-like helpers that receive the production `p` are spliced into the actions
+        helpers = {st.name: st for st in self.parser_cls.body if isinstance(st, ast.FunctionDef) and not st.name.startswith("p_") and st.name.startswith("_") and any(a.arg == "p" for a in st.args.args)}
+        self.action_helpers = helpers
+        for st0 in self.parser_cls.body:
+            st = st0
+            if isinstance(st, ast.FunctionDef) and st.name.startswith("p_") and st.name != "p_error":
+                st = inline_statement_helpers(st, helpers)
             if isinstance(st, ast.FunctionDef) and st.name.startswith("p_") and st.name != "p_error":
                 prods: List[Production] = []
                 for d in st.decorator_list:
